@@ -177,22 +177,22 @@ theorem rat_min_comm (a b : Rat) : min a b = min b a := by grind
 theorem rat_max_comm (a b : Rat) : max a b = max b a := by grind
 
 theorem do_maintenance_loop (s : PosPQ) (limit : Int) (rest pre : List (Entry PV)) (i : Nat)
-    (hi : i = pre.length) (mn mx : Option Rat) (st : List (Nat × Nat)) :
-    Gen.PosPQ.do_maintenance_loop1 H gp draw limit rest i mn mx st (withPq s (pre ++ rest))
-      = (rest.foldl (accStep min) mn, rest.foldl (accStep max) mx, st ++ stragIdx limit rest i,
-         withPq s (pre ++ rest), .done) := by
-  induction rest generalizing pre i mn mx st with
+    (hi : i = pre.length) (n : Nat) (mn mx : Option Rat) (st : List (Nat × Nat)) :
+    Gen.PosPQ.do_maintenance_loop1 H gp draw limit rest i n mn mx st (withPq s (pre ++ rest))
+      = (n + rest.countP (fun e => e.pri.cls != 0), rest.foldl (accStep min) mn, rest.foldl (accStep max) mx,
+         st ++ stragIdx limit rest i, withPq s (pre ++ rest), .done) := by
+  induction rest generalizing pre i n mn mx st with
   | nil => simp [pv_lt_fun, Gen.PosPQ.do_maintenance_loop1, stragIdx]
   | cons e rest ih =>
-    have h1 := fun mn mx st => ih (pre ++ [e]) (i + 1) (by simp [hi]) mn mx st
+    have h1 := fun n mn mx st => ih (pre ++ [e]) (i + 1) (by simp [hi]) n mn mx st
     simp only [List.append_assoc, List.singleton_append] at h1
     simp only [pv_lt_fun, Gen.PosPQ.do_maintenance_loop1, pvAt_mid _ _ _ _ _ hi, objAt_mid _ _ _ _ _ hi,
-      pv_priority_eq, h1, List.foldl_cons, stragIdx, isStrag, accStep]
+      pv_priority_eq, h1, List.foldl_cons, List.countP_cons, stragIdx, isStrag, accStep]
     by_cases hc : e.pri.cls = 0
     · simp [hc]
     · -- the running min / max may be written with min()/max() or with explicit comparisons
       cases mn <;> cases mx <;> by_cases hl : (e.pri.insertedAt : Int) < limit <;>
-        simp [hc, hl, rat_min_comm e.pri.priority, rat_max_comm e.pri.priority] <;> grind
+        simp [hc, hl, rat_min_comm e.pri.priority, rat_max_comm e.pri.priority, Nat.add_assoc, Nat.add_comm] <;> grind
 
 /-- a straggler that `boost_stragglers` really boosts: base priority above `min_pri`, non-zero boost -/
 def boosts (factor minPri : Rat) (draw : Nat → Rat) (limit : Int) (e : Entry PV) : Bool :=
@@ -314,23 +314,47 @@ theorem boost_stragglers_eq (s : PosPQ) (limit : Int) (minPri maxPri : Rat) :
       rw [List.countP_eq_zero]; simpa using hb
     simp [hz, hb, map_boostEntry_of_countP draw _ _ _ _ hz]
 
-/-- `do_maintenance` (with `boost_stragglers` and `compute_priority_boost`): no assertion fails and
-    the result is the model's `doMaintenance` -/
+/-- the value `do_maintenance()` returns, in the terms of the generated code: the `stragglers` list it
+    built and the number of regular entries it counted -/
+theorem maintenanceDone_eq (s : PosPQ) (limit : Int) (hl : ∀ x : Nat, (x : Int) < limit ↔ x < s.nIns - s.len) :
+    PosPQ.maintenanceDone s =
+      (s.factor == 0 || !(decide (stragIdx limit s.q.pq 0 ≠ []) &&
+        decide (s.q.pq.countP (fun e => e.pri.cls != 0) < 2))) := by
+  have hst : PosPQ.isStraggler (s.nIns - s.len) = isStrag limit := by
+    funext e; simp [PosPQ.isStraggler, isStrag, hl]
+  have hany : s.q.pq.any (isStrag limit) = decide (stragIdx limit s.q.pq 0 ≠ []) := by
+    by_cases h : stragIdx limit s.q.pq 0 = []
+    · have := (stragIdx_eq_nil _ _ _).mp h
+      simp only [h, ne_eq, not_true_eq_false, decide_false]
+      exact List.any_eq_false.mpr (fun e he => by simp [this e he])
+    · simp only [h, ne_eq, not_false_eq_true, decide_true]
+      rw [stragIdx_eq_nil] at h
+      by_cases ha : s.q.pq.any (isStrag limit) = true
+      · exact ha
+      · exfalso; apply h; intro e he
+        have := List.any_eq_false.mp (by simpa using ha) e he
+        simpa using this
+  simp only [PosPQ.maintenanceDone, hst, hany]
+
+/-- `do_maintenance` (with `boost_stragglers` and `compute_priority_boost`): no assertion fails, the
+    state is the model's `doMaintenance` and the returned flag is the model's `maintenanceDone` -/
 theorem do_maintenance_eq (s : PosPQ) :
-    Gen.PosPQ.do_maintenance H gp draw s = (PosPQ.doMaintenance H s draw, .ok ()) := by
+    Gen.PosPQ.do_maintenance H gp draw s = (PosPQ.doMaintenance H s draw, .ok (PosPQ.maintenanceDone s)) := by
   have hloop := do_maintenance_loop H gp draw s ((s.nIns : Int) - (PQ.len s.q : Int)) s.q.pq [] 0 rfl
-    none none []
-  simp only [List.nil_append, withPq_self] at hloop
+    0 none none []
+  simp only [List.nil_append, withPq_self, Nat.zero_add] at hloop
   have hl : ∀ x : Nat, (x : Int) < (s.nIns : Int) - (PQ.len s.q : Int) ↔ x < s.nIns - s.len := by
     intro x; simp only [PQ.len, PosPQ.len]; omega
+  have hdone := maintenanceDone_eq s _ hl
   simp only [pv_lt_fun, Gen.PosPQ.do_maintenance, PosPQ.doMaintenance, hloop]
   by_cases hf : s.factor = 0
-  · simp [hf]
-  · simp only [hf, not_false_eq_true, not_true_eq_false, if_false, beq_iff_eq, ne_eq]
+  · simp [hf, hdone]
+  · simp only [hf, not_false_eq_true, not_true_eq_false, if_false, if_true, beq_iff_eq, ne_eq]
     by_cases hs : stragIdx ((s.nIns : Int) - (PQ.len s.q : Int)) s.q.pq 0 = []
     · -- no straggler: nothing to boost in the model either
       have hno := (stragIdx_eq_nil _ _ _).mp hs
-      simp only [hs, not_true_eq_false, if_false]
+      have hd : PosPQ.maintenanceDone s = true := by simp [hdone, hs]
+      simp only [hs, not_true_eq_false, if_false, hd]
       cases hr : PosPQ.regularMinMax s.q.pq with
       | none => rfl
       | some p =>
@@ -352,6 +376,8 @@ theorem do_maintenance_eq (s : PosPQ) :
           simp only [isStrag]
           simp at this
           simp [this]
+      have hd : PosPQ.maintenanceDone s = !decide (s.q.pq.countP (fun e => e.pri.cls != 0) < 2) := by
+        simp [hdone, hs, hf]
       have hmx := foldl_isSome max s.q.pq none
       have hmn := foldl_min_none s.q.pq
       simp only [hany, Option.isSome_none, Bool.false_or] at hmx
@@ -362,7 +388,7 @@ theorem do_maintenance_eq (s : PosPQ) :
         simp [hmn, hr, hany] at this
       | some p =>
         obtain ⟨mx, hmx'⟩ := Option.isSome_iff_exists.mp hmx
-        simp only [hmn, hr, Option.map_some, hmx', boost_stragglers_eq]
+        simp only [hmn, hr, Option.map_some, hmx', boost_stragglers_eq, hd]
         have hb : (fun e => PosPQ.candidate p.1 (s.nIns - s.len) e
             && PosPQ.computeBoost s.factor e.pri.base p.1 (draw e.seq) != 0)
             = boosts s.factor p.1 draw ((s.nIns : Int) - (PQ.len s.q : Int)) := by
@@ -371,7 +397,9 @@ theorem do_maintenance_eq (s : PosPQ) :
             = boostEntry s.factor p.1 draw ((s.nIns : Int) - (PQ.len s.q : Int)) := by
           funext e; exact boostEntry_eq_model draw s.factor p.1 _ _ hl e
         simp only [hb, hm]
-        split <;> simp [withPq]
+        by_cases hn : List.countP (fun e => e.pri.cls != 0) s.q.pq < 2 <;>
+          (simp only [hn, if_true, if_false, decide_true, decide_false, Bool.not_true, Bool.not_false]
+           split <;> simp [withPq])
 
 /-! ### counters, append, popleft, remove -/
 
